@@ -7,6 +7,8 @@ pub mod c05;
 pub mod c06;
 pub mod c11;
 pub mod c14;
+pub mod c15;
+pub mod c17;
 pub mod c18;
 
 use crate::report::CheckOutput;
@@ -22,6 +24,8 @@ pub fn run(id: &str, ctx: &Ctx) -> Option<CheckOutput> {
         "C06" => c06::run(ctx),
         "C11" => c11::run(ctx),
         "C14" => c14::run(ctx),
+        "C15" => c15::run(ctx),
+        "C17" => c17::run(ctx),
         "C18" => c18::run(ctx),
         _ => return None,
     })
